@@ -16,6 +16,9 @@ CLAIMED = {
  'C01': ('PBT: differential against a reference PEG interpreter (exhaustive shapes x all short inputs + hypothesis grammars)',
          'Generated-input search: every depth<=1 core expression in 13 exposing parent contexts, a seeded stride through all depth-2 shapes and hypothesis multi-rule grammars (text+bytes) are compared on all short inputs with an independent naive PEG interpreter; bounds stated in evidence. Finds wrong static flags / missing restores; proves nothing beyond the explored bounds.',
          'Trusts vlib/peg.py reference semantics (DESIGN Appendix A, self-tested on hand cases); alphabet {a,b,Z}, inputs <= 5 (9 sampled), depth <= 5.'),
+ 'C04': ('PBT: hypothesis core grammars + 1-3 ignore declarations (named/anonymous, any position, class start rule, text+bytes); reference interpreter with documented skip placement + lengthen-run metamorphic relation',
+         'Generated-input search: core grammars of all C01 forms with ignore declarations drawn from six non-nullable patterns (regex, literal, repetition, sequence), in every position, with the start rule spelled start/Start/START or being a class, are run through the start rule, module-level parse and non-start rules on all short inputs over token + ignorable characters and random longer ones. Oracle 1: reference interpreter that skips before the start rule and after every successful non-empty literal (also inside lookahead and ignore rules) and nowhere else. Oracle 2: lengthening a run the reference skipped leaves the parsed value unchanged.',
+         'Ignore patterns non-nullable with distinct first characters; oracle 2 only for Backtrack-free grammars.'),
  'C05': ('PBT: hypothesis grammars with let / class members / parameters / where / |> / <| / symbolic counts; reference interpreter with functional environments',
          'Generated-input search: grammars from a scope-aware recursive generator (generated rules, classes with plain/let/pass/requires members, generated templates, a template library) plus rule families built to rebind one name several times within one parse (abandoned alternative, iterations, recursive and sibling invocations, lookahead, class recursion) are run through every parameterless rule and class on all inputs of length <= 4 over {a,b,1,2} and random longer ones, and compared with a reference interpreter whose environments are immutable dicts (an abandoned branch cannot leak).',
          'Shadow-then-read is excluded by construction (known finding F24, witness replayed); inline Python from a closed language.'),
